@@ -53,6 +53,9 @@ type verifSumHandler struct {
 	// is recorded in expired and leaves the state entry ("s","fired") for the key
 	timerAt int64
 	expired [][]byte
+	// per expiry: the timer's time and the watermark the handler was told in that call (seconds)
+	expiredAt   []int64
+	expiredTold []int64
 }
 
 type verifSeen struct {
@@ -90,6 +93,8 @@ func (h *verifSumHandler) ProcessEventBatch(ctx context.Context, req *handlerpb.
 	for _, ev := range req.Events {
 		if te := ev.GetTimerExpired(); te != nil {
 			h.expired = append(h.expired, te.Key)
+			h.expiredAt = append(h.expiredAt, te.Timestamp.GetSeconds())
+			h.expiredTold = append(h.expiredTold, req.Watermark.GetSeconds())
 			if !fired[string(te.Key)] {
 				fired[string(te.Key)] = true
 				firedOrder = append(firedOrder, te.Key)
